@@ -90,7 +90,13 @@ pub fn take_panic() -> Option<(String, String)> {
 /// Evaluate one case; panics are classified.
 pub fn eval(prop: &PropDef, case: &Value) -> Obs {
   let mut obs = Obs::new();
+  let pre0 = rspack_sources::verif::unsafe_violations();
   let r = catch_unwind(AssertUnwindSafe(|| (prop.check)(case, &mut obs)));
+  let pre1 = rspack_sources::verif::unsafe_violations();
+  if pre1 > pre0 && r.is_ok() && prop.panic_policy != PanicPolicy::Count {
+    // count-only mode (sanitizer builds): the hook saw a failed precondition
+    obs.fail("unsafe_precondition", format!("{} unsafe-site precondition(s) failed in this case (count-only mode)", pre1 - pre0));
+  }
   if r.is_err() {
     let (msg, origin) =
       take_panic().unwrap_or(("<no message>".into(), "unknown".into()));
@@ -104,7 +110,9 @@ pub fn eval(prop: &PropDef, case: &Value) -> Obs {
       if unsafe_pre {
         obs.count("unsafe_precondition_panics", 1);
       }
-      if prop.panic_policy == PanicPolicy::Violation {
+      if prop.panic_policy == PanicPolicy::Violation
+        || (prop.panic_policy == PanicPolicy::UnsafeOnly && unsafe_pre)
+      {
         // one clause per (library function, kind of panic), independent of
         // line numbers, so that different panics are different findings
         let frame = msg
@@ -277,6 +285,11 @@ pub fn run_worker(args: &[String]) -> i32 {
     .filter(|k| k.property == prop.id)
     .collect();
   install_panic_hook();
+  if let Some(m) = std::env::var("RSV_UNSAFE_MODE").ok().and_then(|m| m.parse::<u64>().ok()) {
+    // sanitizer builds: let the unsafe operation run so that the sanitizer
+    // sees it too; failed preconditions are still counted per case
+    rspack_sources::verif::set_unsafe_mode(m);
+  }
   let progress = a.get("progress").cloned();
   let skip: BTreeSet<usize> = a
     .get("skip")
